@@ -96,7 +96,20 @@ def _sp_bool_flag(name, sp):
     return sp.pick('flag', [f'{name}', f'{name} = true', f'{name}(true)'])
 
 
+# PATH_REWRITE hook: when set (C14), bare method names are replaced by an equivalent multi-segment path with generic arguments
+PATH_REWRITE = None
+GENERIC_PATHS = {
+    'eq_le': 'crate::support::sup::g::eq_le::<u8>', 'eq_half': 'crate::support::sup::g::eq_half::<u8>',
+    'rev_cmp': 'crate::support::sup::g::rev_cmp::<u8>', 'rev_pcmp': 'crate::support::sup::g::rev_pcmp::<u8>',
+    'half_cmp': 'crate::support::sup::g::half_cmp::<u8>', 'half_pcmp': 'crate::support::sup::g::half_pcmp::<u8>',
+    'hash_m': 'crate::support::sup::g::hash_m::<u8, _>',
+    'clone_m': 'crate::support::sup::g::clone_m::<Bump>', 'clone_mu': 'crate::support::sup::g::clone_m::<Unlawful>', 'clone_m8': 'crate::support::sup::g::clone_m::<u8>',
+}
+
+
 def _sp_path(name, path, sp):
+    if PATH_REWRITE:
+        path = PATH_REWRITE.get(path, path)
     return sp.pick('path', [f'{name}({path})', f'{name} = {path}', f'{name} = "{path}"',
                             f'{name}("{path}")'])
 
